@@ -30,6 +30,10 @@ type Op struct {
 	Stale bool   `json:"stale,omitempty"`
 	Perm  []int  `json:"perm,omitempty"` // fair: order of pairs; negative = reversed direction
 	K     int    `json:"k,omitempty"`    // replay: index (mod number captured) of the ack2 message to redeliver
+	// exchange: Nest > 0 - while the initiator's sync is in flight (the peer has answered, the
+	// answer has not reached the initiator yet), node Nest-1 completes an exchange of its own
+	// with the initiator; what the initiator learns there must survive its own exchange.
+	Nest int `json:"nest,omitempty"`
 }
 
 type Ghost struct {
@@ -98,6 +102,12 @@ func genScript(t *rapid.T) Script {
 				op.J++
 			}
 			op.Drop = rapid.SampledFrom([]string{"", "", "", "", "sync", "ack", "ack2"}).Draw(t, "drop")
+			if n >= 3 && op.Drop == "" && rapid.IntRange(0, 3).Draw(t, "nest") == 0 {
+				k := rapid.IntRange(0, n-1).Draw(t, "nest-k")
+				if k != op.I && k != op.J {
+					op.Nest = k + 1
+				}
+			}
 		case 4, 5:
 			op.Kind = "tick"
 			op.I = rapid.IntRange(0, n-1).Draw(t, "i")
@@ -163,6 +173,8 @@ type net struct {
 	// captured: every ack2 message (member records only) that was put on the wire, with its
 	// target; a replay op redelivers an old one later (a delayed or duplicated datagram)
 	captured []capturedMsg
+	// inFlight, if set, runs once while a sync's answer is on its way back to the initiator
+	inFlight func()
 }
 
 type capturedMsg struct {
@@ -204,6 +216,11 @@ func (c *client) Send(ctx context.Context, target address.Address, req gossip.Me
 		return gossip.Message{}, errDropped
 	}
 	res, err := h(ctx, req)
+	if isSync && c.net.inFlight != nil {
+		f := c.net.inFlight
+		c.net.inFlight = nil
+		f()
+	}
 	if isSync && c.net.drop == "ack" {
 		return gossip.Message{}, errDropped
 	}
@@ -344,7 +361,29 @@ func execute(sc Script, rep *kit.Report) error {
 	if disjoint {
 		rep.Class("disjoint-knowledge")
 	}
-	exchange := func(step int, i, j int, drop string) error {
+	var exchange func(step int, i, j int, drop string) error
+	nested := func(step int, op Op) error {
+		var mid []node.Group
+		var ierr error
+		k := op.Nest - 1
+		s.net.inFlight = func() {
+			ierr = s.gossips[k].GossipOnceWith(ctx, addrOf(op.I))
+			mid = s.views()
+		}
+		if err := exchange(step, op.I, op.J, ""); err != nil {
+			return err
+		}
+		s.net.inFlight = nil
+		if mid == nil {
+			return nil // the outer exchange sent no sync
+		}
+		if ierr != nil {
+			return kit.Fail("exchange-error", "step %d: lossless exchange %d->%d (inside %d->%d) failed: %v", step, k, op.I, op.I, op.J, ierr)
+		}
+		rep.Class("exchange-completed-while-another-was-in-flight")
+		return s.checkForward(step, fmt.Sprintf("exchange %d->%d, during which %d->%d completed", op.I, op.J, k, op.I), mid, s.views(), -1)
+	}
+	exchange = func(step int, i, j int, drop string) error {
 		before := s.views()
 		// non-triviality: both sides ahead on different members
 		aheadI, aheadJ := false, false
@@ -377,6 +416,12 @@ func execute(sc Script, rep *kit.Report) error {
 	for step, op := range sc.Ops {
 		switch op.Kind {
 		case "exchange":
+			if op.Nest > 0 && op.Nest-1 < sc.N && op.Nest-1 != op.I && op.Nest-1 != op.J && op.Drop == "" {
+				if err := nested(step, op); err != nil {
+					return err
+				}
+				continue
+			}
 			if err := exchange(step, op.I, op.J, op.Drop); err != nil {
 				return err
 			}
